@@ -405,6 +405,24 @@ Example C02_special_inhabited :
   /\ match ex_parse "http://" with PErr EmptyHost => true | _ => false end = true.
 Proof. exact special_examples. Qed.
 
+(* ---------- I. the union of classes (i)-(iv): every URL parsed without a base whose scheme is not file ---------- *)
+(* nonfile_input: decided on the input - it has a scheme and the scheme is not "file" (no encoding override) *)
+Theorem C02_reparse_nonfile : forall dbg hp hpo hd input u,
+  HostOK hp hpo hd -> host_above hp hpo hd -> usv_list input -> nonfile_input input = true ->
+  parse_url dbg hp hpo hd None None input = POk u ->
+  Fixpoint_of_reparse dbg hp hpo hd u /\ wf_b u = true /\ ascii (ser u).
+Proof. exact reparse_nonfile_HostOK. Qed.
+Check C02_reparse_nonfile : forall dbg hp hpo hd input u,
+  HostOK hp hpo hd -> host_above hp hpo hd -> usv_list input -> nonfile_input input = true ->
+  parse_url dbg hp hpo hd None None input = POk u ->
+  parse_url dbg hp hpo hd None None (utf8_lossy (ser u)) = POk u /\ wf_b u = true /\ ascii (ser u).
+Print Assumptions C02_reparse_nonfile.
+
+Example C02_nonfile_inhabited :
+  nonfile_input (B "about:blank") = true /\ nonfile_input (B "a:/x/../y") = true /\ nonfile_input (B "a://u@h:1/") = true
+  /\ nonfile_input (B "HTTPS:\h") = true /\ nonfile_input (B "file:///x") = false /\ nonfile_input (B "/relative") = false.
+Proof. exact nonfile_examples. Qed.
+
 (* ---------- F. every excluded class contains a history that is not a fixpoint ---------- *)
 Theorem C02_F_C03_5_refuted :
   witness_step (fun u o => Known_F_C03_5 u o) "non-spec:/.//double" (OSetIpHost (HIpv4 2130706433))
